@@ -742,6 +742,9 @@ class QubitCircuit:
             "SQRTSWAP",
             "BERKELEY",
             "SWAPalpha",
+            # the same gates under their other library names
+            "SWAPALPHA",
+            "iSWAP",
         ]
         num_measurements = len(
             list(filter(lambda x: isinstance(x, Measurement), self.gates))
